@@ -59,7 +59,7 @@ class C03(Prop):
     k2_invs = {'jrn', 'who', 'wfx'}          # the T2 invariants this property answers for on real snapshots ('jrn': with the real record history)
     num = 3
     regions = {'quick': [('core', 80), ('block', 100), ('routers', 60), ('renege', 60), ('renege_jockey', 60), ('schedpre_block', 40), ('preempt', 50), ('prio_reroute', 40),
-                         ('sched', 40), ('schedpre', 40), ('sched_reroute', 30), ('slotted', 30), ('dyn', 30), ('ps', 20), ('all', 60), ('schedpre_tandem', 40), ('dyn_reroute', 30)]}
+                         ('sched', 40), ('schedpre', 40), ('sched_reroute', 30), ('slotted', 30), ('dyn', 30), ('ps', 20), ('all', 60), ('schedpre_tandem', 40), ('dyn_reroute', 30), ('sched_block', 60), ('sched_tandem', 60)]}
     rule = ('one case = one observed run; the event list has every customer creation, every entry into a node or the exit, every data '
             'record as it is written and the true final location of every customer; non-trivial = some customer has >= 3 visit-closing '
             'records and was blocked, pre-empted/interrupted or reneged on the way; distinct = distinct configuration hashes')
